@@ -36,6 +36,10 @@ def gen_policy(rng, uid, tag):
     """small policies; `bad` ones carry an unbalanced pattern that SQL / Mongo cannot convert"""
     r = rng.random()
     desc = 'v%d' % tag
+    if rng.random() < 0.25:
+        # same scalar columns every time: successive versions under one uid differ in their elements only
+        return Policy(uid, actions=[pick(rng, ['get', 'put', '<get|put>', 'del'])], subjects=[pick(rng, ['s1', 's<.*>', 's2'])],
+                      resources=['r'], effect='allow', description='fixed'), False
     if r < 0.35:
         return Policy(uid, actions=[pick(rng, ['get', '<get|put>', 'x'])], subjects=['s<.*>'], resources=['r'],
                       effect=pick(rng, ['allow', 'deny']), description=desc), False
